@@ -85,7 +85,8 @@ theorem readValues_written (c : ColSpec) (hpt : c.ptype ≤ 7) (ncats : Nat) (va
       · rw [List.mem_replicate] at h1; rw [h1.2]; exact Nat.pow_pos (by norm_num)
     have hshape : writerDictData item codes ++ tail
         = (item * 8) :: (uvarintEnc (g * 2 + 1) ++ (L.flatMap (leBytes item) ++ tail)) := by
-      simp only [writerDictData, hLd, List.flatMap_append, flatMap_replicate_zero, ← hg]
+      rw [writerDictData_eq]
+      simp only [hLd, List.flatMap_append, flatMap_replicate_zero, ← hg]
       simp [List.append_assoc]
     have h0 : ¬ (ENC_RLE_DICTIONARY = ENC_PLAIN) := by decide
     have hbw : (item * 8 = 8 ∨ item * 8 = 16 ∨ item * 8 = 32) := by omega
@@ -194,7 +195,7 @@ theorem read_back_written_page (c : ColSpec) (hv : c.v2 = false) (hpt : c.ptype 
         (writerPageBody c cells)).bind (placePage (leafOf c).maxDef (dictOf c cats))
       = some (cells.map (render c cats)) := by
   have hbody : writerPageBody c cells = writerLevels c cells ++ (writerValues c (nonNull cells) ++ List.replicate 8 0) := by
-    simp [writerPageBody, hv]
+    simp [writerPageBody, hv, (write_layout_now 0 0).2.2.2.2]
   have hRV := readValues_written c hpt cats.length (nonNull cells) (List.replicate 8 0) hok.vals_ok hitem
   have hDR := deref_written c cats (nonNull cells) hok.vals_ok
   rw [hbody]
